@@ -85,7 +85,8 @@ class C10:
     technique = "differential property-based testing: the same generated scenario in K interpreters with different PYTHONHASHSEED, twice in each"
     rule = ("scenarios (all shipped pairings, wide DAG fronts with several ready tasks and few machines, shipped DelayModel with generated "
             "prob/degree/seed/distribution) are run twice in each of K child interpreters started with PYTHONHASHSEED 0..K-1 (quick K=3, "
-            "thorough K=8); non-trivial = some algorithm.run call saw >= 2 ready tasks (reported by the child); distinct = distinct "
+            "thorough K=8); child k>0 runs a related decoy simulation first (other machine speeds / delay seed), so interpreters differ in "
+            "history too; non-trivial = some algorithm.run call saw >= 2 ready tasks (reported by the child); distinct = distinct "
             "canonical scenario JSON")
     level_text = ("exploration: digests of the per-timestep table (minus *-algtime columns), the task table and the event log must be "
                   "equal between the two in-process runs and between all K interpreters")
@@ -308,7 +309,8 @@ class C11:
     technique = "differential property-based testing: start(k)+resume(...) versus one uninterrupted run of the same generated scenario"
     rule = ("scenario x pause point k x split of the remainder into resume segments x tail (0..3 steps past completion); the reference is "
             "an uninterrupted start() (tail 0) or start(runtime=T+tail); each case also attempts resume() before start() and a second "
-            "start(); thorough additionally enumerates EVERY pause point k in 1..T-1 for scenarios with T <= 40; non-trivial = the pause "
+            "start(); half of the sampled pause points are aligned with transitions of the reference run; every pause point k in 1..T-1 is "
+            "enumerated for 2 small scenarios per shard (quick, T <= 26) or 6 (thorough, T <= 40); non-trivial = the pause "
             "point lies strictly inside an ingest or a workflow (an allocation is active in the shadow model at step k); distinct = "
             "distinct canonical (scenario, pause points, tail) JSON")
     level_text = ("exploration: per-timestep table (minus *-algtime), task table, event log, end clock and the shadow model's per-step "
